@@ -546,4 +546,10 @@ def run(ctx, res):
     r53_point_branches(ctx, res)
     r54_pure(ctx, res)
     r55_inclusive_thresholds(ctx, res)
+    # R5.6 positions and directions are not confused in the membership code and in the constructors (affine.py)
+    from ..affine import affine_scope, report_affine
+    from ..model import GEOM7
+    roots = [m for c in ctx.repo.classes() if c.name in GEOM7 for m in c.methods.values() if m.name in ("__contains__", "in_")]
+    k6 = report_affine(ctx, res, "R5.6", affine_scope(ctx, roots, GEOM7), "the answer of `in`")
+    ctx.require(res, "R5.6", k6, 30, "function contexts examined for position / direction mismatches")
     res.undecided_ob("numerical truth of Point-in-S predicates (which side of an oblique edge), inclusive boundaries, tolerance band")
